@@ -249,6 +249,8 @@ def main():
                        'one geometry is non-dyadic (0.1, 0.002 ...): tools only copy header numbers, so str(float) round trips are exercised']
     rep.bounds = {'sequence_length': '<= 2 exhaustive, 3-4 seeded', 'levels': '1-2', 'boxes_per_level': '1-3'}
     common.run_cases(rep, run_case, cases())
+    from harness import conformance
+    conformance.run_into(rep)
     return rep.finish()
 
 
